@@ -49,7 +49,7 @@ def concat0_case(draw, tier):
     k = draw(st.integers(1, 4))
     same = draw(st.booleans())
     dt0 = draw(st.sampled_from(gen.ALL_DT))
-    parts = [draw(gen.ragged(tier, dts=[dt0] if same else gen.ALL_DT, max_rows=4)) for _ in range(k)]
+    parts = [draw(gen.ragged(tier, dts=[dt0] if same else gen.ALL_DT, max_rows=4, wide=True)) for _ in range(k)]
     return {"parts": parts, "lz": [draw(LZ) for _ in range(k)], "axis": draw(st.sampled_from([0, None]))}
 
 
@@ -155,7 +155,7 @@ def body_pad(case, ctx):
 
 @st.composite
 def pad_case(draw, tier):
-    a = draw(gen.ragged(tier, dts=["int64", "uint8", "float64", "bool", "int16"], min_rows=1))
+    a = draw(gen.ragged(tier, dts=["int64", "uint8", "float64", "bool", "int16", "float32"], min_rows=1, wide=True))
     if sum(a["lens"]) == 0:
         a = {"lens": a["lens"] + [2], "dt": a["dt"], "vals": draw(gen.flat_values(a["dt"], 2))}
     return {"a": a, "side": draw(st.sampled_from(["left", "right", "default"])), "fill": draw(st.sampled_from([0, 0, 1, 7])),
@@ -187,7 +187,7 @@ def body_nonzero(case, ctx):
 
 @st.composite
 def nonzero_case(draw, tier):
-    return {"a": draw(gen.ragged(tier, dup=draw(st.booleans()))), "spell": draw(st.sampled_from(["np", "method"])), "lz": draw(LZ)}
+    return {"a": draw(gen.ragged(tier, dup=draw(st.booleans()), wide=True)), "spell": draw(st.sampled_from(["np", "method"])), "lz": draw(LZ)}
 
 
 # ---------------------------------------------------------------- where / subset / mask indexing
@@ -259,7 +259,7 @@ def body_mask_select(case, ctx):
 
 @st.composite
 def mask_select_case(draw, tier):
-    a = draw(gen.ragged(tier))
+    a = draw(gen.ragged(tier, wide=True))
     tot = sum(a["lens"])
     mask = draw(st.one_of(st.lists(st.booleans(), min_size=tot, max_size=tot), st.just([False] * tot), st.just([True] * tot)))
     return {"a": a, "mask": mask, "how": draw(st.sampled_from(["subset", "index"])), "lz": [draw(LZ), draw(LZ)]}
@@ -286,8 +286,11 @@ def body_rslice(case, ctx):
     use_s, use_e = case["use_starts"], case["use_ends"]
     ctx.label("src:" + src[0], "starts" if use_s else "no-starts", "ends" if use_e else "no-ends",
               "negative-end" if use_e and any(e < 0 for e in ends) else "nonneg-ends", "via:" + case["via"])
-    s_arr = np.array(starts, dtype=np.int64) if use_s else None
-    e_arr = np.array(ends, dtype=np.int64) if use_e else None
+    bd = case.get("bounds_as", "int64")
+    ctx.label("bounds:" + bd)
+    conv = (lambda v: list(v)) if bd == "list" and case["via"] != "nps" and len(starts) else (lambda v: np.array(v, dtype="int64" if bd == "list" else bd))
+    s_arr = conv(starts) if use_s else None
+    e_arr = conv(ends) if use_e else None
     if src[0] == "ragged":
         a = src[1]
         rows = np_rows(a)
@@ -322,7 +325,7 @@ def rslice_case(draw, tier):
     dt = draw(st.sampled_from(["int64", "int8", "float64", "bool", "uint16"]))
     via = "fn"
     if kind == "ragged":
-        a = draw(gen.ragged(tier, dts=[dt]))
+        a = draw(gen.ragged(tier, dts=[dt], wide=True))
         lens = a["lens"]
         src = ["ragged", a]
     elif kind == "1d":
@@ -345,7 +348,7 @@ def rslice_case(draw, tier):
     if kind == "1d":
         use_s = True   # with a 1-D input the windows are defined by the start vector; omitting it is not claimed
     return {"src": src, "starts": [w[0] for w in ws], "ends": [w[1] for w in ws], "use_starts": use_s, "use_ends": use_e,
-            "via": via, "lz": draw(LZ)}
+            "via": via, "lz": draw(LZ), "bounds_as": draw(st.sampled_from(["int64", "int64", "int32", "intp"]))}   # Python lists are not claimed (the library adds them to array offsets)
 
 
 SUBCHECKS = [
